@@ -341,6 +341,9 @@ def replay(case):
 
 
 REDUCED = ["observe_all", "stats_unknown", "ws_shapeT", "ws_empty", "fit_with_empty", "ptm12_twin_grid"] + sorted(e for e in EDITS if e != "lonlat_values_inplace")
+# quick tier, deepest level: one assignment-style edit per content bit plus the two buffer-level edits (the .coords variants stay in the
+# full alphabet of the shallower levels and in the thorough tier)
+REDUCED_QUICK = [op for op in REDUCED if op not in ("coords_dir", "coords_freq")]
 
 
 def histories(depth, tier):
@@ -351,7 +354,7 @@ def histories(depth, tier):
     for d in range(1, full_depth + 1):
         out.extend(itertools.product(OPS, repeat=d))
     d = full_depth + 1
-    for h in itertools.product(REDUCED, repeat=d):
+    for h in itertools.product(REDUCED_QUICK if tier == "quick" else REDUCED, repeat=d):
         if any(op in EDITS for op in h):
             out.append(h)
     return out
@@ -361,7 +364,7 @@ def run(rep, tier, seed, parts=None):
     common.load_wavespectra()
     os.environ["C18_BATTERY"] = "light" if tier == "quick" else "full"
     depth = 3 if tier == "quick" else 4
-    rep.rule = ("all operation sequences up to depth %d over the 26-operation alphabet %s (quick: full alphabet to depth 2, depth 3 over a reduced 15-operation "
+    rep.rule = ("all operation sequences up to depth %d over the 26-operation alphabet %s (quick: full alphabet to depth 2, depth 3 over a reduced 13-operation (thorough: 15) "
                 "alphabet with at least one edit, 23-observation battery incl. station selection with the dataset's own positions; thorough: full alphabet to depth 3, reduced alphabet with an edit at depth 4, 34-observation battery); each history runs on freshly built objects in a freshly "
                 "forked child and its battery is compared with a fresh interpreter's battery on a freshly constructed "
                 "object of the same contents. A state is (content, accessor/memo/global-table signature) after a history; transitions = "
